@@ -23,6 +23,28 @@ type WOpts struct {
 	Rec     bool   `json:"rec"`
 	// NilOption: a nil EvaluatorOption is included in the option list.
 	NilOption bool `json:"nilOption,omitempty"`
+	// Shuffle (non-zero): the option list is built in a random order with nil entries anywhere and
+	// with overridden duplicates first — a decoy logger, a decoy big-segment provider, the opposite
+	// secondary-key setting — each followed later by the option that counts (documented behaviour:
+	// options are applied in order, nil entries are skipped, the last one of a kind wins). An
+	// evaluation that touches a decoy is reported as not having completed normally.
+	Shuffle uint64 `json:"shuffle,omitempty"`
+}
+
+type decoyBS struct{ hits *[]string }
+
+func (d decoyBS) GetMembership(key string) (evaluation.BigSegmentMembership, ldreason.BigSegmentsStatus) {
+	*d.hits = append(*d.hits, "decoy big-segment provider queried for "+key)
+	return nil, ldreason.BigSegmentsStoreError
+}
+
+type decoyLogger struct{ hits *[]string }
+
+func (d decoyLogger) Println(values ...interface{}) {
+	*d.hits = append(*d.hits, "decoy logger received "+fmt.Sprintln(values...))
+}
+func (d decoyLogger) Printf(format string, values ...interface{}) {
+	*d.hits = append(*d.hits, "decoy logger received "+fmt.Sprintf(format, values...))
 }
 
 type WMember struct {
@@ -262,11 +284,12 @@ func canonLog(line string, keys []string) [2]string {
 // evalSetup is a fully built, reusable evaluation environment (used by eval cases, histories and
 // the concurrency check).
 type evalSetup struct {
-	store *realStore
-	ms    *mutableStore // when set, the evaluator's DataProvider is this indirection
-	bs    *realBS
-	log   *captureLogger
-	ev    evaluation.Evaluator
+	decoyHits []string
+	store     *realStore
+	ms        *mutableStore // when set, the evaluator's DataProvider is this indirection
+	bs        *realBS
+	log       *captureLogger
+	ev        evaluation.Evaluator
 }
 
 func (s *evalSetup) cur() *realStore {
@@ -309,6 +332,42 @@ func newSetupGeneric(opts *WOpts, store *realStore, ms *mutableStore, bs *WBS) *
 	if ms != nil {
 		dp = ms
 	}
+	if opts.Shuffle != 0 {
+		r := newRng(opts.Shuffle)
+		// the options that count, in random order; an absent provider / logger may be stated explicitly
+		final := []evaluation.EvaluatorOption{evaluation.EvaluatorOptionEnableSecondaryKey(opts.Sec)}
+		if s.bs != nil {
+			final = append(final, evaluation.EvaluatorOptionBigSegmentProvider(s.bs))
+		} else if r.bool() {
+			final = append(final, evaluation.EvaluatorOptionBigSegmentProvider(nil))
+		}
+		if s.log != nil {
+			final = append(final, evaluation.EvaluatorOptionErrorLogger(s.log))
+		} else if r.bool() || opts.LogMode == "nilopt" {
+			final = append(final, evaluation.EvaluatorOptionErrorLogger(nil))
+		}
+		for i := len(final) - 1; i > 0; i-- {
+			j := r.intn(i + 1)
+			final[i], final[j] = final[j], final[i]
+		}
+		// overridden duplicates in front
+		decoys := []evaluation.EvaluatorOption{}
+		if r.bool() {
+			decoys = append(decoys, evaluation.EvaluatorOptionEnableSecondaryKey(!opts.Sec))
+		}
+		if r.bool() {
+			decoys = append(decoys, evaluation.EvaluatorOptionBigSegmentProvider(decoyBS{&s.decoyHits}))
+		}
+		if r.bool() {
+			decoys = append(decoys, evaluation.EvaluatorOptionErrorLogger(decoyLogger{&s.decoyHits}))
+		}
+		options = append(decoys, final...)
+		// nil entries at arbitrary positions
+		for i, n := 0, r.intn(3); i < n; i++ {
+			p := r.intn(len(options) + 1)
+			options = append(options[:p], append([]evaluation.EvaluatorOption{nil}, options[p:]...)...)
+		}
+	}
 	if len(options) == 0 {
 		// nothing configured: the plain constructor (all defaults)
 		s.ev = evaluation.NewEvaluator(dp)
@@ -329,6 +388,12 @@ func (s *evalSetup) evalOnce(flag *ldmodel.FeatureFlag, ctx ldcontext.Context, r
 		s.log.lines = nil
 	}
 	obs = WObs{Outcome: "done", Events: []WEvent{}, Logs: [][2]string{}, EventsOK: true}
+	s.decoyHits = nil
+	defer func() {
+		if len(s.decoyHits) > 0 && obs.Outcome == "done" {
+			obs.Outcome, obs.Panic = "panic", "an option that a later option of the same kind overrides was used: "+s.decoyHits[0]
+		}
+	}()
 	var recorder evaluation.PrerequisiteFlagEventRecorder
 	if rec {
 		recorder = func(e evaluation.PrerequisiteFlagEvent) {
